@@ -36,7 +36,7 @@ def setup(c):
 def cases(c):
     rng = c.rng('cases')
     out = []
-    n = 40 if c.tier == 'quick' else 2400
+    n = 40 if c.tier == 'quick' else 9600
     for cls in E.CLASSES:
         rels = ['shift', 'conj'] + (['half'] if cls in HALF else []) + (['reverse'] if cls in REVERSIBLE else [])
         for rel in rels:
